@@ -244,6 +244,8 @@ func (eng *Engine) directMods(fn *ssa.Function, inBlock func(int) bool) (*ModSet
 						eng.addElem(m, c.Args[0].Type().Underlying().(*types.Slice).Elem())
 					case "delete":
 						eng.addMap(m, c.Args[0].Type().Underlying().(*types.Map))
+					case "close":
+						eng.addKey(m, "Gh|chclosed", keyInfo{kind: "Gh"})
 					}
 				case *ssa.Function:
 					if eng.modelFor(f) != nil {
